@@ -35,6 +35,8 @@ T = [
   ['import-formatter-changes-new-text'],
   'd2oracle.UpdateImport returns Format(ast) of a text whose `layers` block is not the last key: the formatter moves boards last but emits a leading blank line and no separating blank line, which a second Format pass changes (formatter idempotence defect, C03)'),
 
+ ('C36-chained-history-hits-move-panic', 'C36', r'"kind": "move"', ['history-panic'],
+  'a chained history runs into the Move panic of C39-move-panics-on-dotted-connection-endpoints (index/slice bounds out of range inside d2oracle.move)'),
  ('C37-create-parallel-edge-renumbers-existing', 'C37', F('t-edge-dotted') + K('create'),
   ['create-changed-existing-edge', 'create-returned-existing-id'],
   'd2oracle.Create of a connection parallel to an existing one whose declaration lies in an outer scope inserts the new declaration earlier in the file: the EXISTING connection is renumbered and the returned key names the old one (witness: `z: L1; z.z: L2 {y: L3}; z.z.y -- z.z: E4`, Create("z.z.y -- z.z"))'),
@@ -78,6 +80,9 @@ T = [
   'd2oracle.Move / Rename does not rewrite indexed connection references `(x <- z.q.c.d)[1].style.opacity: 0.5` whose endpoint lies in the moved subtree: the stale key re-creates the old path as new objects and a new connection'),
  ('C39-move-does-not-rewrite-underscore-references', 'C39', ANY('x-underscore', 'sub-underscore', 'anc-underscore', 'dest-underscore', 't-underscore'), ['move-new-object', 'move-lost-edge', 'move-edge-detached', 'move-changed-edge-attrs', 'move-lost-object', 'move-descendant-misplaced', 'labels-duplicated'],
   'd2oracle.Move of an object that is referenced through `_` parent references inside another container leaves those references pointing at the old path, which re-creates it'),
+ ('C39-rename-connection-with-indexed-references', 'C39', F('x-edge-multiref') + r'.*"key": "(?:[^"\\]|\\.)*\((?:[^"\\]|\\.)*", "kind": "rename"',
+  ['rename-edge-detached', 'rename-edge-changed-other-edge', 'rename-edge-lost-edge', 'rename-edge-new-edge'],
+  'renaming a connection (changing its arrows) that also has indexed references `(a <-> d)[1].style.stroke-width: 4` leaves those references on the old arrows: attributes are lost / a connection is re-created'),
  ('C39-board-scoped-move-leaves-the-board', 'C39', F('board-nested') + K('move'), ['move-lost-moved-object', 'move-lost-object', 'move-new-object'],
   'd2oracle.Move addressed to a nested board that moves an object to the board root writes the object into the FILE root instead of the board\'s own map: it vanishes from the board'),
 
@@ -92,6 +97,10 @@ T += [
   'Move across scopes of an object with dotted attribute keys that are also written inside an ancestor map (`a b: {q.width: 120}` next to `a b.q: L7`): the object is lost while a new ID is predicted'),
  ('C40-reconnect-with-indexed-references', 'C40', F('x-edge-multiref') + K('reconnect'), ['reconnect-prediction-for-removed-edge', 'reconnect-edge-id-not-predicted'],
   'ReconnectEdge rewrites the declaring reference only: indexed references `(m3 -> m4)[0]: E8` keep the old endpoints, so the label/attributes they carry are lost or re-create the old connection'),
+ ('C40-reconnect-connection-declared-inside-container', 'C40', F('x-edge-in-map') + K('reconnect'), ['reconnect-edge-id-not-predicted', 'reconnect-prediction-for-removed-edge'],
+  'ReconnectEdgeIDDeltas mispredicts the new ID of a connection that is declared inside a container map and reconnected to an endpoint outside of it'),
+ ('C40-reconnect-next-to-chain', 'C40', F('t-chain') + K('reconnect'), ['reconnect-edge-id-not-predicted', 'reconnect-prediction-for-removed-edge'],
+  'reconnecting a connection onto endpoints that are also joined by a member of a connection chain: the chain member and the reconnected connection are indexed differently from the prediction'),
  ('C40-delete-on-board-null-mode', 'C40', F('board-nested') + K('delete'), ['delete-prediction-for-removed-object', 'delete-prediction-for-removed-edge', 'delete-object-id-not-predicted', 'delete-edge-id-not-predicted', 'delete-refinement'],
   'board-scoped Delete appends `key: null` (children removed, no renumbering) while DeleteIDDeltas predicts the hoisting/renumbering of the in-place delete'),
  ('C40-rename-edge-arrows-shifts-groups', 'C40', r'"key": "(?:[^"\\]|\\.)*\((?:[^"\\]|\\.)*", "kind": "rename"', ['rename-edge-id-not-predicted'],
@@ -125,6 +134,17 @@ T += [
  ('C41-board-move-into-inherited-container-writes-base', 'C41', ANY('dest-inherited') + K('move'),
   ['scoped-other-board-changed', 'refused-scoped-other-board-changed'],
   'Move addressed to a nested board into a container inherited from the base board edits the base board'),
+ ('C41-board-delete-container-renames-in-root-graph', 'C41', F('board-nested', 'child-name-taken-in-parent', 'x-children') + K('delete'),
+  ['scoped-other-board-changed'],
+  'Delete of a container addressed to a nested board first renames clashing children with move(g, nil, …) ("TODO boardPath" in renameConflictsToParent): the renames are applied to the root board'),
+ ('C41-refused-reconnect-leaves-uncompilable-graph', 'C41', F('board-nested') + K('reconnect'), ['refused-left-graph-does-not-compile-reconnect'],
+  'ReconnectEdge addressed to a nested board that fails with "failed to recompile" has already rewritten the caller\'s AST: the graph the caller still holds no longer compiles'),
+ ('C41-refused-set-leaves-uncompilable-graph', 'C41', F('board-nested') + K('set'), ['refused-left-graph-does-not-compile-set'],
+  'Set addressed to a nested board that fails with "failed to recompile" (e.g. `near` on a non-root shape) leaves the invalid key in the caller\'s AST'),
+ ('C41-refused-delete-leaves-uncompilable-graph', 'C41', F('board-nested') + K('delete'), ['refused-left-graph-does-not-compile-delete'],
+  'Delete addressed to a nested board that fails with "failed to recompile" leaves the caller\'s AST half edited'),
+ ('C41-refused-connection-rename-leaves-uncompilable-graph', 'C41', F('board-nested') + r'.*"key": "(?:[^"\\]|\\.)*\((?:[^"\\]|\\.)*", "kind": "rename"', ['refused-left-graph-does-not-compile-rename'],
+  'Rename of a connection addressed to a nested board that fails with "failed to recompile" leaves the caller\'s AST edited'),
  ('C41-board-scoped-connection-rename-edits-the-root-board', 'C41', F('board-nested') + r'.*"key": "(?:[^"\\]|\\.)*\((?:[^"\\]|\\.)*", "kind": "rename"',
   ['scoped-other-board-changed', 'refused-scoped-other-board-changed'],
   'd2oracle.Rename / Move of a CONNECTION addressed to a nested board looks the connection up in the root graph (`obj := g.Root` in move) and rewrites the arrows of the root board\'s connection with the same key'),
